@@ -323,6 +323,48 @@ def make_bad(name):
             "pages_iterable": Pages([1, 2]), "type_object_with_run": RunNonCallable}[name]
 
 
+class _StarCall(object):
+    def __init__(self, f):
+        self._f = f
+
+    def __call__(self, *values, **options):
+        return self._f(*values)
+
+
+class _Holder(object):
+    def __init__(self, f):
+        self._f = f
+
+    def method(self, value, scale=1):
+        return self._f(value)
+
+    @staticmethod
+    def _noop():
+        return None
+
+
+def _plain_callable(e):
+    import types
+    return (isinstance(e, (types.FunctionType, types.LambdaType)) or type(e) is gen.Fn) and \
+        not any(hasattr(e, a) for a in ("run", "fill", "compute", "request", "fill_into"))
+
+
+def _undecorated_wrapper(f):
+    def wrapper(*args, **kwargs):
+        return f(*args, **kwargs)
+    return wrapper
+
+
+CALLABLE_WRAPS = {
+    "star-args-lambda": lambda f: (lambda *a: f(*a)),
+    "star-args-object": _StarCall,
+    "undecorated-wrapper": _undecorated_wrapper,
+    "partial": lambda f: __import__("functools").partial(f),
+    "bound-method-with-option": lambda f: _Holder(f).method,
+    "keyword-default": lambda f: (lambda value, _f=f, _extra=None: _f(value)),
+}
+
+
 def run_case(r, obs):
     import lena.core
     import lena.flow
@@ -370,6 +412,12 @@ def run_case(r, obs):
         # explicit Run adapters around non-run elements
         compare("explicit-run-adapters", lambda: lena.core.Sequence(
             *[e if hasattr(e, "run") else lena.core.Run(e) for e in fresh()]).run(iter(flow())))
+        # plain callables given in other callable forms: a callable is whatever can be called
+        # with one value
+        for wk in sorted(CALLABLE_WRAPS):
+            wrap = CALLABLE_WRAPS[wk]
+            compare("callable-kind#" + wk, lambda wrap=wrap: lena.core.Sequence(
+                *[wrap(e) if _plain_callable(e) else e for e in fresh()]).run(iter(flow())))
         n = len(els_r)
         if n <= 5:
             for gi, groups in enumerate(groupings(n)):
@@ -781,3 +829,6 @@ RULE += (' Flows are also given as tuples, deques, map objects, dict views and u
          'fill/compute/request/run attributes that is not an element.')
 RULE += (' Added: user callables / fill methods that raise StopIteration for one value (the run '
          'must fail, not end silently) and an accumulator that rebinds its own fill method.')
+RULE += (' Added: every plain callable of a chain also given as a *args lambda, an object whose '
+         '__call__ takes *values, an undecorated wrapper, a functools.partial, a bound method with '
+         'an optional argument, a lambda with keyword defaults.')
